@@ -230,6 +230,7 @@ type job struct {
 	Trace    string
 	TraceLen int
 	Cmd      string
+	Retries  int
 }
 
 type specRun struct {
@@ -474,13 +475,13 @@ func main() {
 	// invariant practically always need the bad node, so those configurations
 	// get the larger share of the state budget.
 	kindNum := map[string]int{
-		"allgood": r.Pick(4800, 12000),
-		"fault":   r.Pick(3600, 12000),
-		"dead":    r.Pick(3600, 6000),
-		"both":    r.Pick(1200, 4000),
+		"allgood": r.Pick(4800, 10000),
+		"fault":   r.Pick(3600, 9000),
+		"dead":    r.Pick(3600, 4000),
+		"both":    r.Pick(1200, 2500),
 	}
 	probeNum := r.Pick(4000, 20000) // single worker
-	dlNum := r.Pick(2000, 20000)    // per worker, 2 workers (report-only InvDeadlock sample)
+	dlNum := r.Pick(2000, 5000)     // per worker, 2 workers (report-only InvDeadlock sample)
 	depth := 100
 	slots := 16
 	if v, err := strconv.Atoi(os.Getenv("C20_SLOTS")); err == nil && v >= 4 {
@@ -491,7 +492,14 @@ func main() {
 	// ---- prepare specs and jobs ---------------------------------------------
 	var runs []*specRun
 	var jobs []*job
+	only := os.Getenv("C20_ONLY") // development/replay aid: restrict to one spec directory (never gives "held")
+	if only != "" {
+		r.Inconclusive("restricted run (C20_ONLY=" + only + "): not all five specifications were executed")
+	}
 	for si := range specs {
+		if only != "" && specs[si].Name != only {
+			continue
+		}
 		sr := &specRun{Def: specs[si], Idx: si}
 		runs = append(runs, sr)
 		dir := filepath.Join(fm, sr.Def.Name)
@@ -609,7 +617,17 @@ func main() {
 		go func() {
 			defer wg.Done()
 			defer s.release(j.Workers)
-			j.run(watchdog)
+			// a TLC process killed from outside (shared machine: SIGTERM/SIGKILL ->
+			// exit 143/137) says nothing about the spec: run it again, same seed
+			for attempt := 0; ; attempt++ {
+				j.run(watchdog)
+				killed := j.RC == 143 || j.RC == 137 || j.RC == 130 || j.RC == 129 || strings.HasPrefix(j.Err, "TLC killed by signal")
+				if !killed || attempt >= 2 {
+					break
+				}
+				j.Retries++
+				j.Err = ""
+			}
 			if os.Getenv("C20_VERBOSE") != "" {
 				fmt.Fprintf(os.Stderr, "c20: %-22s %-12s %-8s %-22s rc=%d %.1fs states=%d traces=%d %s\n",
 					j.Spec.Def.Name, j.Cfg.id(), j.Kind, j.Probe, j.RC, j.Wall, j.States, j.Traces, j.Violated)
@@ -641,11 +659,11 @@ func probeFile(d specDef) string {
 
 // classification of a finished TLC process
 const (
-	clOK        = "ok"        // ran to completion, no invariant violated
-	clViolated  = "violated"  // TLC reported an invariant violated
-	clBroken    = "broken"    // spec does not parse / lacks a named operator / cannot be evaluated
-	clAssume    = "assume"    // ASSUME rejected the constants
-	clHarness   = "harness"   // crash, watchdog, cannot start
+	clOK       = "ok"       // ran to completion, no invariant violated
+	clViolated = "violated" // TLC reported an invariant violated
+	clBroken   = "broken"   // spec does not parse / lacks a named operator / cannot be evaluated
+	clAssume   = "assume"   // ASSUME rejected the constants
+	clHarness  = "harness"  // crash, watchdog, cannot start
 )
 
 func classify(j *job) (class, detail string) {
@@ -746,6 +764,11 @@ func evaluate(r *ev.Run, runs []*specRun, jobs []*job, thorough bool) {
 		}
 	}
 
+	for _, j := range jobs {
+		if j.Retries > 0 {
+			r.Count("tlc_processes_killed_externally_and_rerun", int64(j.Retries))
+		}
+	}
 	for _, k := range keys {
 		js := group[k]
 		var m *job
